@@ -78,7 +78,7 @@ def twice(f, shared, what='call'):
 class _SubArray(np.ndarray):
     pass
 
-PRESENTATIONS = ['array', 'list', 'series', 'readonly', 'strided', 'subclass']
+PRESENTATIONS = ['array', 'list', 'series', 'readonly', 'strided', 'subclass', 'masked']
 
 def present(x, mode):
     """the same sample values handed over as another legal container / memory layout"""
@@ -92,6 +92,8 @@ def present(x, mode):
         buf = np.empty(2 * len(x), dtype=x.dtype); buf[::2] = x; buf[1::2] = 12345; return buf[::2]
     if mode == 'subclass':        # an ndarray subclass (np.memmap, a units array, ...): np.asarray(y) is a NEW object sharing y's memory
         return x.copy().view(_SubArray)
+    if mode == 'masked':          # a numpy masked array with some samples flagged: the library analyses the recorded voltages (np.asarray drops the mask)
+        return np.ma.MaskedArray(x.copy(), mask=(np.arange(len(x)) % 7 == 3))
     raise ValueError(mode)
 
 def pick_presentation(rng, p=0.3):
@@ -161,7 +163,7 @@ def object_route(sig, fs, f_range, center, method, bk, th, fek, return_samples=T
         fek0 = _copy.deepcopy(fek); bk0 = _copy.deepcopy(bk)
         if which in (1, 2):
             if fek0 is not None and 'boundary' in fek0: fek0['boundary'] = fek0['boundary'] + 7
-            if fek0 is not None and isinstance(fek0.get('filter_kwargs'), dict) and 'n_cycles' in fek0['filter_kwargs']: fek0['filter_kwargs']['n_cycles'] = fek0['filter_kwargs']['n_cycles'] + 1
+            if fek0 is not None and isinstance(fek0.get('filter_kwargs'), dict) and fek0['filter_kwargs'].get('n_cycles') is not None: fek0['filter_kwargs']['n_cycles'] = fek0['filter_kwargs']['n_cycles'] + 1
             if bk0 is not None and 'amp_threshes' in bk0: bk0['amp_threshes'] = (0.5, 3.0)
             if bk0 is not None and 'min_n_cycles' in bk0: bk0['min_n_cycles'] = bk0['min_n_cycles'] + 2
         bm = quiet(Bycycle, center_extrema=center, burst_method=method, burst_kwargs=bk0, thresholds=th0, find_extrema_kwargs=fek0, return_samples=return_samples)
@@ -265,6 +267,15 @@ def raised_in_kernel(e):
         files.append(tb.tb_frame.f_code.co_filename); tb = tb.tb_next
     last_own = max([i for i, f in enumerate(files) if '/bycycle/' in f] or [-1])
     return any(('/neurodsp/' in f and '/neurodsp/utils/checks' not in f) for f in files[last_own + 1:])
+
+
+def last_own_function(e):
+    """name of the LAST bycycle function on the traceback (the one that called into the library that raised)"""
+    tb = e.__traceback__; name = None
+    while tb is not None:
+        if '/bycycle/' in tb.tb_frame.f_code.co_filename: name = tb.tb_frame.f_code.co_name
+        tb = tb.tb_next
+    return name
 
 
 def layout_nd(a, k):
